@@ -41,7 +41,7 @@ ASSUMPTIONS = [
 
 
 def floors(tier):
-    return {"count-at-cap": 60, "hp-keyword": 100, "as-text": 20, "int-for-float": 300, "rel=B": 1500, "rel=A": 1500, "bf=0": 1000, "bf=1": 1000, "scaled": 1500,
+    return {"application-registered-type": 100, "count-at-cap": 60, "hp-keyword": 100, "as-text": 20, "int-for-float": 300, "rel=B": 1500, "rel=A": 1500, "bf=0": 1000, "bf=1": 1000, "scaled": 1500,
             "sweep": 5000, "count>0": 300, "kwargs-permuted": 300, "single-attribute": 5000}
 
 
@@ -60,6 +60,7 @@ def plan(tier, seed):
     pairs = scaled_pairs()
     for i, p in enumerate(pairs):
         specs.append({"what": "sweep", "pair": i})
+    specs.append({"what": "synthetic"})
     return specs
 
 
@@ -110,6 +111,13 @@ def required_kw(t):
 
 def check(case) -> core.Out:
     import pyubx2
+
+    from vp.props import synth
+
+    if case.get("defname") in synth.DEFS and C.find_target(case["mode"], bytes(case["clsid"]), case["defname"]) is None:
+        synth.sight_unknown(case["defname"])
+        with synth.registered(case["defname"]):
+            return check(case)
 
     if case.get("kind") == "leafwise":
         return check_leafwise(case)
@@ -390,6 +398,27 @@ def not_nan_floats(nodes):
 
 
 def run_shard(spec, ctx, acc):
+    if spec.get("what") == "synthetic":
+        # message types registered by the application (vp/props/synth.py): every supplied value
+        # comes back, whatever combination of the grammar the definition uses
+        from vp.props import synth
+
+        known_ = set(ctx["known"])
+        for name in synth.DEFS:
+            synth.sight_unknown(name)
+            with synth.registered(name) as t:
+                if catalog.has_none_group(t.defn):
+                    continue  # (variable-by-size groups cannot be built from keywords)
+                inst = layout.instances(t.defn, mode=t.mode, clsid=t.clsid, forced={}, zero_reserved=True,
+                                        max_payload=1200, big_counts=False).filter(not_nan_floats)
+                base = {"kind": "kw", "mode": t.mode, "clsid": t.clsid, "defname": t.defname}
+                for bf in (1, 0):
+                    before = acc.evaluations
+                    core.hyp_search(acc, inst.map(lambda nodes, bf=bf: dict(base, bf=bf, nodes=nodes, subset=None)), check,
+                                    seed=core.derive(ctx["seed"], PROP, "synthetic", name, bf),
+                                    max_examples=60 if ctx["tier"] == "quick" else 1500, known=known_, rounds=2)
+                    acc.classes["application-registered-type"] += acc.evaluations - before
+        return
     targets = C.cat()[0]
     known = set(ctx["known"])
     tier = ctx["tier"]
